@@ -115,6 +115,87 @@ theorem literal_posting_wellformed (srcTok dstTok assetTok numTok : List Char) (
     subst this
     exact ⟨⟨_, rfl, Int.natCast_nonneg _⟩, ⟨b2, hb1, hl1, hl2⟩, ⟨body, hb, hl⟩⟩
 
+/-- Script variables (JSON vars, and accounts read from account metadata with
+    `meta()`): a value the variable parser accepts satisfies its pattern as it is
+    stored, so any posting built from accepted account / monetary variables is
+    well-formed. -/
+theorem variable_posting_wellformed (src dst mon : List Char) (p : RawPosting)
+    (h : variablePosting src dst mon = .ok p) : WellFormed p := by
+  unfold variablePosting at h
+  cases hs : newValueAccount src with
+  | error e => rw [hs] at h; cases h
+  | ok s =>
+    cases hd : newValueAccount dst with
+    | error e => rw [hs, hd] at h; cases h
+    | ok d =>
+      cases hm : newValueMonetary mon with
+      | error e => rw [hs, hd, hm] at h; cases h
+      | ok an =>
+        obtain ⟨asset, n⟩ := an
+        rw [hs, hd, hm] at h
+        cases h
+        -- accounts
+        have hs' : validAddress s = true := by
+          unfold newValueAccount at hs; split at hs <;> cases hs; assumption
+        have hd' : validAddress d = true := by
+          unfold newValueAccount at hd; split at hd <;> cases hd; assumption
+        -- monetary
+        have hm' : validAsset asset = true ∧ 0 ≤ n := by
+          unfold newValueMonetary at hm
+          split at hm
+          · cases hm
+          · split at hm
+            · cases hm
+            · split at hm
+              · cases hm
+              · rename_i hva
+                split at hm
+                · cases hm
+                · rename_i hneg
+                  cases hm
+                  exact ⟨by simpa using hva, by omega⟩
+        obtain ⟨b1, hb1, hl1⟩ := matchAnchored_lang hs'
+        obtain ⟨b2, hb2, hl2⟩ := matchAnchored_lang hd'
+        obtain ⟨b3, hb3, hl3⟩ := matchAnchored_lang hm'.1
+        have : b2 = b1 := Option.some.inj (hb2.symm.trans hb1)
+        subst this
+        exact ⟨⟨n, rfl, hm'.2⟩, ⟨b2, hb1, hl1, hl2⟩, ⟨b3, hb3, hl3⟩⟩
+
+/-- The same with an `asset` variable and a literal amount. -/
+theorem asset_variable_posting_wellformed (src dst asset numTok : List Char) (p : RawPosting)
+    (h : assetVariablePosting src dst asset numTok = .ok p) : WellFormed p := by
+  unfold assetVariablePosting at h
+  cases hs : newValueAccount src with
+  | error e => rw [hs] at h; cases h
+  | ok s =>
+    cases hd : newValueAccount dst with
+    | error e => rw [hs, hd] at h; cases h
+    | ok d =>
+      cases ha : newValueAsset asset with
+      | error e => rw [hs, hd, ha] at h; cases h
+      | ok a =>
+        rw [hs, hd, ha] at h
+        cases h
+        have hs' : validAddress s = true := by
+          unfold newValueAccount at hs; split at hs <;> cases hs; assumption
+        have hd' : validAddress d = true := by
+          unfold newValueAccount at hd; split at hd <;> cases hd; assumption
+        have ha' : validAsset a = true := by
+          unfold newValueAsset at ha; split at ha <;> cases ha; assumption
+        obtain ⟨b1, hb1, hl1⟩ := matchAnchored_lang hs'
+        obtain ⟨b2, hb2, hl2⟩ := matchAnchored_lang hd'
+        obtain ⟨b3, hb3, hl3⟩ := matchAnchored_lang ha'
+        have : b2 = b1 := Option.some.inj (hb2.symm.trans hb1)
+        subst this
+        exact ⟨⟨_, rfl, Int.natCast_nonneg _⟩, ⟨b2, hb1, hl1, hl2⟩, ⟨b3, hb3, hl3⟩⟩
+
+/-- A padded value is not accepted: trailing newline, trailing blank, leading blank. -/
+theorem padded_values_rejected :
+    (newValueAccount "users:001\n".toList).toOption = none ∧
+    (newValueAccount "users:053 ".toList).toOption = none ∧
+    (newValueAsset " USD/2".toList).toOption = none ∧
+    (newValueMonetary " USD/2 10".toList).toOption = none := by decide
+
 /-- The grammar alone does not guarantee valid assets: `A/B` is a token of the
     lexer rule `ASSET` (`[A-Z/0-9]+`) but not in the language of the asset pattern
     (so are `/`, `1A`, 18 letters, `USD/1234567`). Lexer language ⊄ pattern. -/
@@ -209,6 +290,9 @@ example : postingsValidate
 example : (literalPosting "@world".toList "@users:42".toList "EUR/2".toList "100".toList).toOption.map (·.amount)
     = some (some 100) := by decide
 example : (compileAssetLiteral "USD".toList).toOption = some "USD".toList := by decide
+example : ((variablePosting "users:001".toList "bank".toList "USD/2 10".toList).toOption.map (·.amount))
+    = some (some 10) := by decide
+example : (newValueMonetary "USD -1".toList).toOption = none ∧ (newValueMonetary "USD +5".toList).toOption = some ("USD".toList, 5) := by decide
 example : postingsValidate
     [{ source := "world".toList, destination := "bank".toList, asset := "A/B".toList, amount := some 10 }] 0
     = some (0, "invalid asset") := by decide
